@@ -14,6 +14,7 @@ from . import _cfdp as C
 from . import c08
 
 SCRIBBLE = True
+THOROUGH_SCALE = 16
 ID = "C09"
 LEVEL = "exploration"
 SHARDS = {"quick": 1, "thorough": 16}
@@ -379,7 +380,7 @@ def run(ctx):
     r = ctx.rng
     names = list(reg())
     i = 0
-    reps = 20 if ctx.quick else 60
+    reps = 20 if ctx.quick else 500
     for name in names:
         for sc in SUFFIX_CLASSES:
             for rep in range(reps):
@@ -391,7 +392,7 @@ def run(ctx):
         k = r.randrange(2, 6)
         ns = [r.choice(names)] * k if r.random() < 0.4 else [r.choice(names) for _ in range(k)]
         k_back_to_back(ctx, ns, ctx.seed * 1_000_003 + ctx.shard[0] * 50_021 + j)
-    preps = 8 if ctx.quick else 40
+    preps = 8 if ctx.quick else 300
     for kind in C.KINDS8:
         for crc in (0, 1):
             for sc in SUFFIX_CLASSES:
